@@ -391,4 +391,34 @@ def plan_C12(ctx):
     ctx.nontrivial = sum(e["stats"].get("Suspensions", 0) for e in ctx.extra.get("explorations", []))
     ctx.need("histories abandoned while suspended", ctx.nontrivial, 1000)
 
-PLANS = dict(C01=plan_C01, C02=plan_C02, C03=plan_C03, C04=plan_C04, C06=plan_C06, C07=plan_C07, C11=plan_C11, C12=plan_C12, C13=plan_C13)
+def simple_cfg(name, consts, invariants, view=False):
+    return (name, "SPECIFICATION Spec\n" + ("VIEW view\n" if view else "") + "CONSTANTS\n" + "\n".join("  " + c for c in consts) +
+            "\nINVARIANTS " + " ".join(invariants) + "\nCHECK_DEADLOCK FALSE\n")
+
+def plan_C16(ctx):
+    ctx.extra["rule"] = ("TLC enumerates names: all 2^len letter-case variants of every table name (<= 14 letters; thorough: also the 2^19 "
+        "variants of P-Asserted-Identity), every byte string of length 0..3 over a 40 byte alphabet, every one-edit neighbour "
+        "(insert/delete/substitute/transpose) of every table name; checks on the model that the hash lookup equals membership in the "
+        "literal table (AutoEqDecl, RoundTrip) and prints what the DOCUMENTED table says; each record is executed on the real "
+        "GetHdrType / GetMethodNo (+ Name() and back).  The header parser's use of the classification is covered by C07.")
+    parts = ["edits", "short", "cases"] + ([] if ctx.quick else ["caseslong"])
+    for part in parts:
+        ctx.tlc("MC_Lookup", simple_cfg("lookup_%s.cfg" % part, ["OffsMod = 65536", 'Part = "%s"' % part], ["AutoEqDecl", "RoundTrip", "Emit"]),
+                workers=8, min_records=1000)
+    # method number -> name -> number for every SIPMethod value (incl. out of range), HdrT.String total
+    ctx.explore(dict(mode="lookups", props=["C16"]), "method/hdr-type round trips", count_as_traces=False)
+    ctx.nontrivial = ctx.records
+    ctx.need("names classified on the real code", ctx.records, 50000)
+
+def plan_C10(ctx):
+    ctx.extra["rule"] = ("Decl from decimal strings: for every boundary digit string (neighbourhoods of 2^16 2^24 2^31 2^32 10^9 10^10 "
+        "2^63 2^64 and multiples, known wrap residues, 1..40 digits, leading zeros; 209 strings) x numeric position (Expires header, "
+        "Content-Length, CSeq, Contact expires, URI port; q from integer/decimal parts), TLA+ computes the value in 192 bit limb "
+        "arithmetic and states: exact value, or rejected / flagged / saturated as documented; each record is executed on the real "
+        "code one-shot and with a cut inside the number.  Reply status codes: all 1000 codes in the C08 generator.")
+    for pos in ("expires", "clen", "cseq", "cexpires", "port", "q"):
+        ctx.tlc("MC_Digits", simple_cfg("digits_%s.cfg" % pos, ["OffsMod = 65536", 'Pos = "%s"' % pos], ["Emit", "Arith"]), workers=4, min_records=100)
+    ctx.nontrivial = ctx.records
+    ctx.need("digit strings x positions executed", ctx.records, 2000)
+
+PLANS = dict(C10=plan_C10, C16=plan_C16, C01=plan_C01, C02=plan_C02, C03=plan_C03, C04=plan_C04, C06=plan_C06, C07=plan_C07, C11=plan_C11, C12=plan_C12, C13=plan_C13)
